@@ -100,26 +100,67 @@ SPEC_RULE = ("every implementation output of stream 'acl' is also compared with 
              "concrete failing input of the property")
 
 
+class CoreCapsStream(Stream):
+    name = "corecaps"
+    driver = "authz"
+    harness = {"name": "vaultc03c", "module": "root", "pkg": "./internal/vault",
+               "files": {"internal/vault/zz_verif_common_test.go": "wb/vault/zz_verif_common_test.go",
+                         "internal/vault/zz_verif_c02_test.go": "wb/vault/zz_verif_c02_test.go",
+                         "internal/vault/zz_verif_c03c_test.go": "wb/vault/zz_verif_c03c_test.go",
+                         "internal/zzverif/vh/vh.go": "vh/vh.go"}}
+    testname = "TestVerifC03Core"
+    rule = ("one real Core per case, three set-ups in turn: everything in the root namespace / everything inside a child "
+            "namespace / CROSS (policies and tokens in the root namespace, their rules naming the child namespace's paths "
+            "in full; mounts, requests and the capabilities question in the child namespace); policies over the recording "
+            "mounts (exact and glob rules, capability sets incl. deny and sudo), service and batch tokens; per question the "
+            "seven path operations are REQUESTED with the token (req lines, model of C02) and Core.Capabilities + the "
+            "sys/capabilities endpoint are asked about the same path in the same namespace; judged on the code's own "
+            "answers: granted => reported, deny reported => nothing granted, endpoint = Core.Capabilities; non-trivial = "
+            "a capability list other than [deny] / a granted request; distinct = distinct op line")
+
+    def nontrivial(self, op, impl):
+        if op.startswith("caps\t"):
+            return not impl.startswith("deny")
+        f = impl.split("|")
+        return op.startswith(("req\t", "reqns\t")) and len(f) == 4 and (f[0] == "ok" or f[1] != "-")
+
+    @staticmethod
+    def _refusal(op, res):
+        # as in C02: a leading-slash path inside a child namespace is refused by the ACL instead of by the router
+        if op.startswith("reqns\t"):
+            for c in ("denied|", "nopath|"):
+                if res.startswith(c):
+                    return "refused|" + res[len(c):]
+        return res
+
+    def norm_impl(self, op, impl):
+        return self._refusal(op, impl.split("!VIOL:", 1)[0])
+
+    def norm_model(self, op, model):
+        return self._refusal(op, model)
+
+
 class C03(PropCheck):
     pid = "C03"
-    lean_modules = ["C03", "C03Gen"]
+    lean_modules = ["C03", "C03Gen", "C03Core"]
 
     def pre(self, ctx):
         core.regenerate()
-    streams = [ACLStream()]
+    streams = [ACLStream(), CoreCapsStream()]
     level_text = ("Lean theorems over a transliterated model of parsePaths/NewACL/AllowOperation/"
                   "CheckAllowedFromNonExactPaths/Capabilities; the model is tied to the Go code by a differential stream "
                   "on every run; order independence and capability-list agreement are evaluated directly on the "
                   "implementation's outputs")
     level_note = ("trusted: Lean kernel; the hand-written model and its differential tie; HCL decoding, templating, path "
-                  "expiry, control groups, MFA and granting-policy lists are outside the model; root namespace only")
+                  "expiry, control groups, MFA and granting-policy lists are outside the model; the ACL stream runs in the root namespace, the Core.Capabilities stream also inside and across a child namespace")
     technique = "Lean 4 theorems (induction over rule lists, List.Perm, strict-total-order comparator) + differential correspondence"
     assumptions = ["ASCII parameter names (strings.ToLower modelled by ASCII lower-casing)",
                    "wrapping TTLs are whole seconds; no int64 overflow",
                    "keys of one allowed_parameters/denied_parameters stanza are distinct after lower-casing"]
     trusted_base = ["Lean 4.33.0 kernel",
                     "model Obao/Model/ACL.lean tied to internal/vault/policy/{acl,policy}.go by stream 'acl'",
-                    "harness/bb/c03 + lib/*.py"]
+                    "harness/bb/c03 + lib/*.py",
+                    "Core.Capabilities across namespaces: model Obao/Model/RequestAuthz.lean (capabilityList, coreCapabilities) tied by stream 'corecaps' (harness/wb/vault/zz_verif_c03c_test.go)"]
 
 
     def extra(self, ctx):
